@@ -647,7 +647,7 @@ def features(prog):
 
 
 # Attribute decoration ------------------------------------------------------------------------------
-ABI_PATTERNS = ["pre_{0}", "{0}_suf", "ns_{0}_v1", "lib2_{0}", "{0}"]
+ABI_PATTERNS = ["pre_{0}", "{0}_suf", "ns_{0}_v1", "book_{}", "{0}"]      # "book_{}": the spelling of the book's example
 CFG_ATOMS = ["*", "c", "cpp", "js", "dart", "kotlin", "nanobind", "demo_gen", "not(c)", "not(js)", "any(cpp, js)",
              "any(dart, kotlin, nanobind)", "all(not(c), not(kotlin))", "not(any(js, dart))", "supports = option",
              "not(supports = callbacks)", "supports = namespacing"]
